@@ -8,7 +8,8 @@ props = [json.loads(l) for l in (VERIF / "properties.jsonl").read_text().splitli
 LEVEL = ("static analysis (category other): every listed obligation - a dataflow, control-flow, role/axis-typing, effect or algebraic "
          "normal-form fact - is established on every enumerated path of the current source; decides the structural clauses named in "
          "DESIGN.md section 4 for this property, not the numerical behaviour")
-NOTE = ("trusted base: CPython ast front end, the vstat analyser (unit tests + seeded-fault corpus in setup_cmd/thorough tier), the library model "
+NOTE = ("terms are compared in canonical form (argument spelling, branch polarity, comparison orientation, method/function spelling, helpers outside the function inventory looked through - DESIGN 8.6/8.7); "
+        "trusted base: CPython ast front end, the vstat analyser (unit tests + seeded-fault corpus in setup_cmd/thorough tier), the library model "
         "(vstat/contracts.py) and the formula transcriptions (vstat/specsrc); value-level clauses listed as 'declined' in DESIGN.md 4 are NOT decided")
 
 CLAIMED = {
@@ -18,7 +19,7 @@ CLAIMED = {
             "declined: optimality itself, weight-scale invariance, the zero-weight limit (scikit-learn's semantics)"),
     "C04": ("package-wide flatten-order scan with positive control, ravel provenance of kernel arguments, output-shape plumbing, dtype provenance of every allocation, sibling agreement predict/jacobian",
             "declined: permutation invariance, linearity in the data, pandas containers, round-off (relations between pairs of executions)"),
-    "C17": ("zone abstraction: exhaustive abstract interpretation of the modular longitude arithmetic over the finite partition of admissible (W, E) classes; dominance of range checks; normal-form agreement of bound and longitude transforms",
+    "C17": ("zone abstraction: exhaustive abstract interpretation of the modular longitude arithmetic over the finite partition of admissible (W, E) classes; dominance and exact disjunct coverage of the range checks; normal-form (or cell-by-cell) agreement of bound and longitude transforms",
             "declined: point-in-region equivalence enumerated over (W, E, longitude) classes; np.allclose read as exact equality; five seam classes are KNOWN FINDINGS (known_findings.json)"),
     # id: (technique, declined / extra note)
     "C03": ("rational normal forms of every kernel path vs transcribed docstring formulas; interval definedness; loop/block structure checks",
@@ -36,10 +37,10 @@ CLAIMED = {
     "C10": ("guard-polarity analysis of the three aggregation paths, reader/writer agreement of columns and tuple positions, normal forms of the weight formulas, store analysis, effect analysis",
             "declined: ddof of pandas' variance, the (0,1] range and 'some weight equals 1' (arithmetic consequences)"),
     "C11": ("provenance dataflow of every yielded test set (pre-image of block ids under the block labels), delegation of the complement to scikit-learn, fold provenance, forwarding, argmin, RNG who-may-call",
-            "declined: non-empty folds (an empty first fold is possible on the pinned tree - value-level defect of partition_by_sum, out of static reach), balance quality, exact sizes"),
+            "declined: balance quality and exact fold sizes; non-emptiness is decided through its structural necessary condition (C11.R7: the guards that keep every np.split point strictly inside 1..n-1 - the missing guard was defect F8, repaired)"),
     "C12": ("TRAIN/TEST provenance labels at fit/score sinks, clone-per-split and single-use checks, guard polarity of metric selection, loop-index alignment in the scorer, argmax/refit in SplineCV, "
             "forwarding completeness, estimator-protocol who-may-call, effect analysis of dispatched tasks", "declined: metric values"),
-    "C13": ("role/axis typing of bounds and comparisons, normal forms of get_region/pad_region, predicate-tree analysis of inside, out= buffer liveness, validation reachability",
+    "C13": ("role/axis typing of bounds and comparisons, normal forms of get_region/pad_region, predicate-tree analysis of inside (incl. narrowing-conversion scan of the operands), out= buffer liveness, validation reachability, bit-exact stop of spacing_to_size",
             "declined: containment of generated nodes (semantics of uniform/linspace)"),
     "C14": ("normal form of the shrunk centre region, literal/operator checks of the closed square ball query, index-shape and flatten-order checks, rejection guards",
             "declined: coverage of the region, nesting by size (monotonicity of ball queries)"),
